@@ -47,16 +47,18 @@ def Acct.empty (a : Acct) : Bool := a.nonce == 0 && a.bal == 0 && a.code.isEmpty
 structure Log where
   addr : Addr
   topics : List Word
+  index : Nat            -- Log.Index: the block-wide log counter when the log was added
   deriving DecidableEq, Repr
 
 structure World where
   acct : Addr → Acct
   dom : List Addr        -- every address ever written (finite support; used for totals and dumps)
-  logs : List Log        -- newest first
+  logs : List Log        -- this transaction's logs, newest first
+  logSize : Nat          -- StateDB.logSize: logs added so far in the block (AddLog ++, addLogChange.revert --)
   refund : Nat
   burnt : Nat            -- ghost counter: value destroyed by SELFDESTRUCT-to-self and by overwriting a deleted object
 
-def World.init : World := ⟨fun _ => Acct.none, [], [], 0, 0⟩
+def World.init : World := ⟨fun _ => Acct.none, [], [], 0, 0, 0⟩
 
 def World.set (w : World) (a : Addr) (v : Acct) : World :=
   { w with acct := fun x => if x = a then v else w.acct x,
@@ -406,7 +408,7 @@ def exec (env : Env) : Prog → Ctx → Nat → World → List Ev → Res
     let g := gas - pre
     let cost := gLog + gLogTopic * topics.length
     if g < cost then ⟨w, g, .err .oog, tr⟩
-    else exec env rest ctx (g - cost) { w with logs := ⟨ctx.self, topics⟩ :: w.logs } tr
+    else exec env rest ctx (g - cost) { w with logs := ⟨ctx.self, topics, w.logSize⟩ :: w.logs, logSize := w.logSize + 1 } tr
   | .call kind pre mem addr value gasSpec callee rest, ctx, gas, w, tr =>
     match callCharge ctx kind pre mem addr value gasSpec gas w with
     | .error e => ⟨w, gas, .err e, tr⟩
